@@ -123,6 +123,20 @@ func init() {
 				runTemplateHistory(c, []string{a, b})
 			}
 		}
+		// neighbours that are almost the same input: letter case only, blanks only, one character
+		for _, e := range []string{"x = 'Bob'", "Name + 'a'", "a IN ('x', 'Y')", "'Abc' LIKE 'a%'", "Max(A, b) + x", "a + 1", "TRUE and a"} {
+			for _, v := range []string{swapCase(e), strings.ToUpper(e), strings.ToLower(e), e + " ", " " + e, e, strings.Replace(e, "a", "b", 1), e + " + 1"} {
+				runParserHistory(c, []string{e, v})
+				runParserHistory(c, []string{v, e})
+				runParserHistory(c, []string{e, "(", v})
+			}
+		}
+		for _, s := range []string{"Hello {{name}}!", "{{#A}}x{{/A}} Y", "{{{Name}}} and {{B}}", "text only"} {
+			for _, v := range []string{swapCase(s), strings.ToUpper(s), strings.ToLower(s), s + " ", s, s + "."} {
+				runTemplateHistory(c, []string{s, v})
+				runTemplateHistory(c, []string{v, s})
+			}
+		}
 		n, maxH := 150, 8
 		if c.Thorough {
 			n, maxH = 4000, 30
@@ -139,6 +153,9 @@ func init() {
 				} else {
 					es[j] = g.render(g.toks(g.gen(1+c.Rng.Intn(3)), 0, c.Rng.Intn(3)), false)
 					ts[j] = printTpl(g.genTpl(c.Rng.Intn(3), 1+c.Rng.Intn(4)))
+				}
+				if j > 0 && c.Rng.Intn(6) == 0 {
+					es[j], ts[j] = swapCase(es[j-1]), swapCase(ts[j-1])
 				}
 			}
 			runParserHistory(c, es)
